@@ -35,6 +35,7 @@ type Env struct {
 	WatchKeys []string
 	// PostErrs holds the error values returned by "error"/"issue" PostTransforms, by node id and index.
 	PostErrs map[[2]int]error
+	shared   map[int]sharedSchema
 }
 
 func (e *Env) Reset() { e.Log = e.Log[:0] }
@@ -338,8 +339,29 @@ func regex(s string) *regexp.Regexp {
 	return r
 }
 
+type sharedSchema struct {
+	s z.ZogSchema
+	t reflect.Type
+}
+
 // Build turns a node into a zog schema and the Go type of its destination.
+// Nodes carrying the same non-zero ShareID yield the same schema object.
 func Build(n *Node, e *Env) (z.ZogSchema, reflect.Type) {
+	if n.ShareID != 0 {
+		if e.shared == nil {
+			e.shared = map[int]sharedSchema{}
+		}
+		if sh, ok := e.shared[n.ShareID]; ok {
+			return sh.s, sh.t
+		}
+		s, t := build(n, e)
+		e.shared[n.ShareID] = sharedSchema{s, t}
+		return s, t
+	}
+	return build(n, e)
+}
+
+func build(n *Node, e *Env) (z.ZogSchema, reflect.Type) {
 	switch n.Kind {
 	case KString:
 		s := z.String(e.schemaOpts(n)...)
@@ -870,3 +892,11 @@ func Run(schema z.ZogSchema, e *Env, x Exec, data any, dest reflect.Value) (res 
 	}
 	return res
 }
+
+// Exported handles for property-specific builders.
+
+func TestOptions(e *Env, o Opts) []z.TestOption { return e.opts(o) }
+func TestRecorder(e *Env, n *Node, idx int, pred string) z.BoolTFunc {
+	return e.testFunc(n, idx, pred)
+}
+func Regex(s string) *regexp.Regexp { return regex(s) }
